@@ -146,25 +146,50 @@ def inh_safe(h, p):
     return z3.If(is_none(s), i, s)
 
 
-WFT = z3.Function('WFT', z3.IntSort(), z3.BoolSort())     # ghost: r is the root of a well-formed (finite, unshared) node tree
 
 
 TopK = z3.Function('TopK', z3.IntSort(), z3.IntSort(), Val)     # ghost: key of the child of r under which descendant x lives
 
 
-def wft_axiom(eng, h):
-    """unfolding of WFT one level (the child structure is read from heap h): a composed node's children form a proper
-    tree level and are well-formed themselves; every descendant lives under exactly one child; leaves have no descendants"""
+def In(v, r):
+    """r is v or a descendant of v"""
+    return z3.Or(r == v, Desc(v, r))
+
+
+def subwf(eng, h, v):
+    """the subtree rooted at v is a well-formed (finite, unshared) node tree; structure is read from heap h.
+    Every composed node in it has a proper level of children (tree), every descendant lives under exactly one
+    child, leaves have no descendants."""
     r = z3.Int('!wr')
     x = z3.Int('!wx')
     m = children(h, r)
     tk = TopK(r, x)
     ck = r_of(m.get(tk))
     return z3.And(
-        FA([r], z3.Implies(z3.And(WFT(r), is_composed(eng, h.cls(r))),
-                           z3.And(tree(h, r), forall_children(h, r, lambda k, c: WFT(c), tag='w'))), patterns=[WFT(r)]),
-        FA([r, x], z3.Implies(z3.And(WFT(r), Desc(r, x)),
-                              z3.And(is_composed(eng, h.cls(r)), m.has(tk), z3.Or(x == ck, Desc(ck, x)))), patterns=[z3.MultiPattern(WFT(r), Desc(r, x))]))
+        v > 0,
+        FA([r], z3.Implies(Desc(v, r), r > 0), patterns=[Desc(v, r)]),
+        FA([r], z3.Implies(z3.And(In(v, r), is_composed(eng, h.cls(r))), tree(h, r)), patterns=[Desc(v, r)]),
+        z3.Implies(is_composed(eng, h.cls(v)), tree(h, v)),
+        FA([r, x], z3.Implies(z3.And(In(v, r), Desc(r, x)),
+                              z3.And(is_composed(eng, h.cls(r)), m.has(tk), z3.Or(x == ck, Desc(ck, x)))), patterns=[Desc(r, x)]))
+
+
+def subwf_clause(eng, h, v, name='subtree-well-formed', guard=None):
+    """precondition clause carrying `subwf`; at call sites it is re-established from the caller's own clause plus a
+    frame obligation on the structure fields inside the subtree (pyvc.interp_call.apply_contract)"""
+    g = guard if guard is not None else z3.BoolVal(True)
+    return (name, z3.Implies(g, subwf(eng, h, v)),
+            {'static': True, 'fn': (lambda hh, eng=eng, v=v, g=g: z3.Implies(g, subwf(eng, hh, v))),
+             'scope': (lambda r, v=v, g=g: z3.And(g, In(v, r))),
+             'scope_dict': (lambda r, v=v, g=g, eng=eng, h=h: z3.And(g, In(v, r), is_composed(eng, h.cls(r))))})
+
+
+def WFT(r):
+    return z3.BoolVal(True)
+
+
+def wft_axiom(eng, h):
+    return z3.BoolVal(True)
 
 
 def desc_valid(h, r):
@@ -229,4 +254,4 @@ def ghost_defs(real, ids):
     for ro, rx, kt in tops:
         topdef = z3.If(z3.And(a == ro, b == rx), kt, topdef)
     return [FA([a, b], TopK(a, b) == topdef),FA([a, b], Desc(a, b) == z3.Or([z3.And(a == x, b == y) for x, y in sorted(pairs)] or [z3.BoolVal(False)])),
-            FA([a], WFT(a) == z3.Or([a == x for x in sorted(wft)] or [z3.BoolVal(False)]))]
+]
